@@ -40,7 +40,7 @@ COMPONENTS = {
              "dali.driver.serial LubaProtocol/SCIRS232Protocol receive path, DistributorQueue", "asyncio (CPython)"],
     "stub": ["VirtualLoop", "os/glob/random", "serial_asyncio", "gateway firmware, bus, other masters"],
 }
-PROBES = ["query-timeout", "query-answered", "query-resolved-by-next-frame", "twice-ok", "twice-failed-timeout",
+PROBES = ["no-permanent-subscriber", "query-timeout", "query-answered", "query-resolved-by-next-frame", "twice-ok", "twice-failed-timeout",
           "twice-failed-mismatch", "twice-failed-backward", "twice-failed-noframe", "dt-context-used",
           "dt-context-expired", "event-decoded-through-map", "unknown-frame", "own-send-interleaved",
           "subscriber-left", "subscriber-joined", "traffic-burst", "explicit-no-frame",
@@ -136,7 +136,7 @@ def gen_traffic(r, driver, n):
 def gen_plan(seed, tier="quick"):
     r = plans.rng_for(seed, PROP)
     driver = ("tridonic", "luba", "tridonic", "sci", "tridonic", "luba", "tridonic", "hasseb")[seed % 8]
-    knobs = plans.gen_knobs(r, driver)
+    knobs = plans.gen_knobs(r, driver, allow_batch=True)
     knobs["latency"] = r.choice(["fast", "nominal"])
     if r.random() < 0.6:
         knobs["inst_map"] = [[r.randrange(64), r.randrange(32), r.choice([0, 1, 2, 3, 4, 6, 31])]
@@ -163,7 +163,10 @@ def gen_plan(seed, tier="quick"):
         for c in plan["callers"]:
             c["start_us"] = r.randrange(0, span + 1)
     span = max([it["t_us"] for it in plan["traffic"]] + [300000])
-    for _ in range(r.choice([0, 1, 2, 3])):
+    # in some runs nobody is subscribed from the start: a subscriber may join in
+    # the middle of a transaction the watcher is already tracking
+    plan["permanent"] = r.random() < 0.6
+    for _ in range(r.choice([0, 1, 2, 3]) if plan["permanent"] else r.choice([1, 2, 3])):
         reg = r.choice([0, 0, r.randrange(0, span)])
         un = r.choice([None, None, reg + r.randrange(1000, span + 400000)])
         plan["subs"].append({"reg_us": reg, "unreg_us": un})
@@ -209,7 +212,8 @@ def _hooks(plan, ctx):
                 world.loop.at(t0 + (reg_us + 0.37) * 1e-6, do_reg)
             if unreg_us is not None:
                 world.loop.at(t0 + (unreg_us + 0.61) * 1e-6, do_unreg)
-        add_sub("S*", None, None)
+        if plan.get("permanent", True):
+            add_sub("S*", None, None)
         for i, s in enumerate(plan.get("subs", [])):
             add_sub("S%d" % i, s["reg_us"], s.get("unreg_us"))
 
@@ -358,7 +362,7 @@ def _serial_reference(rr, imap):
 def run_plan(plan):
     ctx = {}
     if plan["driver"] == "hasseb":
-        plan = dict(plan, subs=[])
+        plan = dict(plan, subs=[], permanent=True)
     rr = drvsim.run(plan, hooks=_hooks(plan, ctx))
     res = base_result(rr)
     w = rr.world
@@ -388,6 +392,8 @@ def run_plan(plan):
         w.probe("traffic-" + str(k))
     if plan["callers"] and plan.get("traffic"):
         w.probe("own-send-interleaved")
+    if not plan.get("permanent", True):
+        w.probe("no-permanent-subscriber")
     for s in plan.get("subs", []):
         w.probe("subscriber-left" if s.get("unreg_us") is not None else "subscriber-joined")
     if getattr(rr.dev, "quirk_fired", 0):
